@@ -10,10 +10,10 @@ EXHAUSTIVE = True
 RULE = (
     "Exhaustive product (enumerated completely on every run, sharded over the workers): edge kind {odometry, landmark} x vertex count {1,2,3} x "
     "pose type of each endpoint (4 each) x measurement type {4 pose types, plain ndarray} x offset type {4 pose types, None, plain ndarray} "
-    "(landmark) x information shape {1..7 square, non-square, 1-D} x each named id present/absent: construction through Graph(edges, vertices) must "
+    "(landmark) x information shape {1..7 square, non-square, 1-D} x each named id present/absent (plus, for three named ids, one id repeating another): construction through Graph(edges, vertices) must "
     "raise iff a validity predicate written from the documentation is false; an accepted edge is bound to the listed vertices and has a finite "
     "chi2. Plus a Hypothesis part: generated valid graphs with permuted vertex lists and negative / sparse / > 2^63 ids - every edge is bound to "
-    "the vertex objects whose ids it names irrespective of list order, and the same graph with one edge naming an unknown id raises. "
+    "the vertex objects whose ids it names irrespective of list order (also when the edge objects were bound in another graph before), and the same graph with one edge naming an unknown id raises. "
     "Non-trivial = exactly one attribute inconsistent (near miss) or a consistent combination; distinct = the combination itself."
 )
 BUDGET = {"quick": 16 * 300, "thorough": 16 * 2000}
@@ -37,11 +37,16 @@ def enumerate_cases():
                         for ish in INFO_SHAPES:
                             for present in itertools.product((True, False), repeat=nv):
                                 yield {"shape": "combo", "ek": ek, "vk": list(vk), "mk": mk, "ok": ok, "ish": list(ish) if isinstance(ish, tuple) else ish, "present": list(present)}
+                            if nv == 3:
+                                # three named ids of which one repeats another (still three vertices named => invalid)
+                                for dup in ([2, 1], [2, 0], [1, 0]):
+                                    if vk[dup[0]] == vk[dup[1]]:
+                                        yield {"shape": "combo", "ek": ek, "vk": list(vk), "mk": mk, "ok": ok, "ish": list(ish) if isinstance(ish, tuple) else ish, "present": [True, True, True], "dup": dup}
 
 
 @S.composite
 def strategy_(g):
-    case = GG.gen(g, n_pose=(2, 6), n_lm=(0, 3), n_loops=(0, 3), features=("parallel", "reversed", "permute", "ids", "custom", "quat-signs"), custom_flavour="ana")
+    case = GG.gen(g, n_pose=(2, 6), n_lm=(0, 3), n_loops=(0, 3), features=("parallel", "reversed", "permute", "ids", "custom", "quat-signs", "lm_odo"), custom_flavour="ana")
     case["shape"] = "graph"
     case["break_edge"] = g.rnd.randrange(10**6)
     case["break_pos"] = g.rnd.randrange(10**6)
@@ -112,6 +117,9 @@ def _check_combo(case, ctx):
     verts = [gs.Vertex(10 + i, _pose(k)) for i, k in enumerate(vk)]
     extra = gs.Vertex(5, _pose("se2"))
     ids = [10 + i if p else 100 + i for i, p in enumerate(present)]
+    if case.get("dup"):
+        ids[case["dup"][0]] = ids[case["dup"][1]]
+        ctx.event("combo:repeated-id")
     if ek == "odo":
         c = R.CDIM[vk[0]]
         edge = gs.EdgeOdometry(ids, _info(ish, c), _measurement(mk, vk[0]))
@@ -168,6 +176,20 @@ def _check_graph(case, ctx):
         if v.gradient_index != o:
             return ctx.fail("gradient-index", "vertex #%d has gradient_index %r, expected %d" % (i, v.gradient_index, o))
         o += R.CDIM[gs.kind_of(v.pose)]
+    # the same edge objects put into a second graph over NEW vertex objects (same ids, other poses) are bound to the
+    # second graph's vertices: a graph attaches each edge to *its* vertices by id
+    import copy as _copy
+
+    c3 = _copy.deepcopy(case)
+    for v in c3["verts"]:
+        v["p"]["v"] = [x + 0.25 if i < R.PDIM[v["p"]["k"]] else x for i, x in enumerate(v["p"]["v"])]
+    verts2 = [gs.Vertex(v["id"], gs.mk_pose(v["p"]), fixed=bool(v["fixed"])) for v in c3["verts"]]
+    g2 = gs.Graph(list(g._edges), verts2)
+    by_id2 = {v.id: v for v in verts2}
+    for i, (e, ed) in enumerate(zip(g2._edges, case["edges"])):
+        for j, vid in enumerate(ed["ids"]):
+            if e.vertices[j] is not by_id2[vid]:
+                return ctx.fail("edge-not-rebound-to-new-graph", "edge #%d slot %d (id %r) is still bound to a vertex object of the previous graph" % (i, j, vid))
     # the same graph with one edge naming an unknown id must be rejected
     if case["edges"]:
         import copy
